@@ -61,6 +61,16 @@ CHECKS = {
          "Both formats x atom counts {1,2,3,10,99,100,101,200} x element lists cycling through all 103 elements x 6 coordinate kinds (generic, negative, zero, +-9999.9999 field limit, below SDF precision, 12 digits) x bonded/unbonded x string/file routes; every symbol in 3 letter cases x 4 separator styles through the XYZ reader; 1-3 concatenated SDF records from the writer and hand-built by the column reference; each SDF text must satisfy the CTfile V2000 columns.",
          "Precision XYZ 5e-13 / SDF 5e-5; molecules keep within the 3-digit atom/bond counts of V2000.",
          "2/C16"),
+ "C12": ("exploration",
+         "complete enumeration of a lattice of cells (lengths^3 x angle grid, filtered to valid parallelepipeds) through both construction routes and all named constructors against textbook lattice geometry",
+         "Continuous quantifier; bounded-exhaustive over lengths {1,7.3,100}^3 (thorough {1,2.5,7.3,31.7,100}^3) x all valid angle triples on a 10 (5) degree grid in [20,160]^3 (42k / 1.5M cells), degrees and radians, vector route incl. 26 rotated frames and left-handed input, seven named constructors + from_unique_parameters: inverse, coordinate round trip, lengths/angles, volume=|det|, reciprocal lengths/angles/vectors, agreement of the two routes, all to 1e-9 relative.",
+         "Cells flatter than sqrt(det G)/abc = 0.02 are excluded as degenerate; angle tolerances scaled by 1/sin.",
+         "2/C12"),
+ "C18": ("exploration",
+         "complete enumeration of small lattice point sets (all triples/quadruples of {-1,0,1}^3, incl. every collinear/planar/centrosymmetric degeneracy) x relating transformations x reflection x noise, against Horn's quaternion optimum",
+         "Continuous quantifier; bounded-exhaustive over all 2,925 triples and 17,550 quadruples (quick: every third) of the 27-point lattice + prefixes n=5..50 of two lattice enumerations, x 28 rotations x reflection x 3 noise patterns: orthogonality, det=+1, RMSD not above the independent optimum + 1e-8, congruent sets superposed, mirror images never superposed improperly, rmsd_points/reorient_points consistent; Dimer.transform_ab reproduces the relating rotation.",
+         "Rotation about the origin (the routine does not centre); Horn's method is the trusted optimum.",
+         "2/C18"),
 }
 
 ALL = ["C%02d" % i for i in range(1, 21)]
